@@ -1,0 +1,46 @@
+//go:build verif
+// +build verif
+
+// Machine-checked contracts for this package (checked by /verif/govc).
+// Comment-only: no executable code.
+
+package manifest
+
+//@ import amanifest "github.com/ovrclk/akash/manifest"
+//@ import sdl "github.com/ovrclk/akash/sdl"
+//@ import validation "github.com/ovrclk/akash/validation"
+//@ import dtypes "github.com/ovrclk/akash/x/deployment/types"
+
+// ---- C10: a manifest is accepted only if its hash is the version the chain holds for the deployment -----------
+// the manifest's version hash (sha256 over sorted JSON, sdl.ManifestVersion; A-HASH: a function of the manifest's content)
+//@ spec manifestHash(m: amanifest.Manifest): str
+//@ extern sdl.ManifestVersion(manifest)
+//@   pure
+//@   ensures result1 == nil ==> result0 == manifestHash(manifest)
+// stand-alone validity and cross-validation against the on-chain groups (validation package; the cross-validation of
+// one group is covered by the bounded stand-in of C10)
+//@ spec manifestValid(m: amanifest.Manifest): bool
+//@ spec manifestMatches(m: amanifest.Manifest, groups: []dtypes.Group): bool
+//@ extern validation.ValidateManifest(m)
+//@   pure
+//@   ensures result == nil <==> manifestValid(m)
+//@ extern validation.ValidateManifestWithDeployment(m, dgroups)
+//@   pure
+//@   requires m != nil
+//@   ensures result == nil <==> manifestMatches(*m, dgroups)
+
+// the version a submitted manifest must hash to: the latest version announced by an update event, else the version
+// of the deployment as fetched from the chain
+//@ func (*manager).validateRequest
+//@   requires m != nil && m.data != nil && req.value != nil
+//@   modifies ghost ChanKind, ghost ChanPending, ghost InFlight
+//@   ensures [version] result == nil ==> old(manifestHash(req.value.Manifest) == ite(len(m.versions) != 0, m.versions[len(m.versions) - 1], m.data.Deployment.Version))
+//@   ensures [valid] result == nil ==> old(manifestValid(req.value.Manifest) && manifestMatches(req.value.Manifest, m.data.Groups))
+//@   loop 1 modifies groupNames[**]
+//@   loop 1 invariant 0 <= iter && 0 <= len(groupNames) && len(groupNames) <= cap(groupNames) && (cap(groupNames) > 0 ==> fresh(groupNames))
+//@   loop 1 invariant arr(groupNames) == atloop(arr(groupNames)) || freshloop(groupNames)
+//@ func (*manager).checkHostnamesForManifest
+//@   trusted
+//@   modifies ghost ChanKind, ghost ChanPending, ghost InFlight
+
+//@ property C10 := (*manager).validateRequest#*
